@@ -25,9 +25,27 @@ from .. import common
 from ..sexp import Sym, line as sx
 
 META = dict(
-    text="PLACEHOLDER",
-    note="PLACEHOLDER",
-    technique="Lean 4 proof over a regex-engine model + generated pattern facts + differential run against re",
+    text="PARTIAL. Proved in Lean for ALL strings (PPProofs/Props/C18.lean, over the regex-engine model "
+         "PPModel/Base/Regex.lean): integer_language, hex_integer_language, signed_integer_language, real_language "
+         "(+ ureal_language, accepts_signOpt) - the pattern read from the live package parses to the pinned AST and the "
+         "AST's preferred re.match consumes the whole string iff the string has the documented syntax (digits / hex "
+         "digits / optional sign + digits / optional sign + digits.digits* or .digits+). For sci_real, fnumber, "
+         "ieee_float, identifier, ipv4_address, mac_address, iso8601_date, iso8601_datetime, uuid, number, fraction, "
+         "ipv6 parts and the quoted-string built-ins only the generated-fact obligations (*_pattern_ast, *_leaves_fact, "
+         "*_quoted_string_fact: live pattern = pinned AST, checked by the kernel on every run) are proved; their "
+         "language theorems are MISSING and acceptance is decided by the oracle (python transcription of the syntax) on "
+         "generated strings. NOT proved (search only, on the real code): value agreement with int()/float()/ipaddress/"
+         "uuid/datetime/str.isidentifier; ipv6_address vs ipaddress; QuotedString round trip and verbatim source with "
+         "unquote_results=False (reference encoder, all parameter combinations); dbl/sgl/quoted_string + remove_quotes; "
+         "nested_expr vs a bracket reader; DelimitedList min/max/trailing delimiter; counted_array exact count. There is "
+         "no Lean model of QuotedString/nested_expr/DelimitedList/counted_array yet. Three open known findings are "
+         "registered (ipv6_embedded_ipv4_forms, delimited_max1_trailing, quoted_numeric_escapes).",
+    note="Trusted: Lean kernel; axioms propext/Classical.choice/Quot.sound; the regex model (parser + matcher `m` + "
+         "capture-free `ends` on which the theorems are stated) is a hand-written model of CPython re, validated only "
+         "differentially on every run (every built-in pattern x generated strings: match end, groups, ends==m); "
+         "\\d \\w \\s are ASCII in the model (CPython: Unicode), so theorems and runs are about ASCII text; the "
+         "python transcriptions of the syntaxes and the reference encoders/readers in harness/props/c18.py.",
+    technique="Lean 4 proof over a regex-engine model + generated pattern facts + differential run against re + oracles",
     design="§5 C18",
 )
 
@@ -971,6 +989,7 @@ def quoted_oracle(ctx, pp):
     n = skipped = 0
     outcomes = {}
     e = ctx.match_known("quoted_numeric_escapes")
+    numeric_ok = e is None
     if e is not None:
         w = e["witness"]
         d = check_quoted(pp, w["quoted"], w["content"], w["style"])
@@ -984,7 +1003,9 @@ def quoted_oracle(ctx, pp):
                                                       cfg["esc_quote"] or "y", "\\t", "\\n", "\\x41", "\\101", "\\0"]
         for _ in range(ctx.budget(12, 30)):
             content = "".join(rng.choice(alpha) for _ in range(rng.randint(0, 7)))
-            style = ""  # numeric escapes (x/u/o styles) are the region of the known finding quoted_numeric_escapes
+            # numeric escapes (x/u/o styles) are the region of the known finding quoted_numeric_escapes: generated
+            # only once that finding is no longer registered as open
+            style = "".join(rng.choice("rrrrrxuo") for _ in content) if (numeric_ok and rng.random() < 0.4) else ""
             d = check_quoted(pp, cfg, content, style)
             if d == "skip":
                 skipped += 1
@@ -1325,7 +1346,15 @@ def run(ctx):
         "such strings (45%), random strings (20%), 15% matched at pos 1-2; compared: match end, groups(), and that the "
         "capture-free `ends` agrees with the full matcher; non-trivial = the pattern matches a prefix. "
         "oracle-builtins: per built-in, strings of the documented syntax (spec-driven generator), strings of the live "
-        "pattern, mutations of both, hand-written near misses; ASCII only (\\d is Unicode-aware in CPython)")
+        "pattern, mutations of both, hand-written near misses; ASCII only (\\d is Unicode-aware in CPython). "
+        "oracle-ipv6: generated full/compressed/mixed/mutated addresses vs ipaddress (dotted quads only after the exact "
+        "'::ffff:' prefix and no zone ids: region of the known finding). oracle-quoted-roundtrip: random parameter "
+        "combinations (10 quote pairs x esc_char x esc_quote x multiline x unquote_results x convert_whitespace_escapes) "
+        "x contents over an alphabet of quotes, escapes, backslash sequences and blanks, encoded by a reference encoder "
+        "(unrepresentable contents are skipped and counted). oracle-quoted-builtins: dbl/sgl/quoted_string vs a reference "
+        "scanner + remove_quotes. oracle-nested: random bracket trees rendered with 6 opener/closer pairs, 45% mutated, vs "
+        "a bracket reader. oracle-delimited: delim x min x max x trailing x combine x item lists (max=1 with trailing "
+        "delimiter excluded: known finding). oracle-counted: announced vs real item count, decimal and binary counts")
     diffs = regex_correspondence(ctx, facts)
     boost = 1 if (ok and not diffs) else 4
     builtin_oracle(ctx, pp, facts, boost=boost)
